@@ -312,6 +312,31 @@ where
                 let mut dst: &mut [u8] = &mut data[dlen..];
                 want_ok(b.write_all_volatile_to(*a, &mut dst, 0), |_| true)
             });
+            k.form(layer, "write_volatile_to / write_all_volatile_to(count 0, &mut [u8] with room)", class, args.clone(), snapshot, &mut || {
+                // the sink keeps its room: a later transfer must find it as it was
+                let mut data = vec![7u8; dlen + 3];
+                let mut dst: &mut [u8] = &mut data[..];
+                let room = dst.len();
+                let r1 = want_ok(b.write_volatile_to(*a, &mut dst, 0), |n| *n == 0);
+                if dst.len() != room {
+                    return Err(format!("the sink shrank from {} to {} bytes of room", room, dst.len()));
+                }
+                let r2 = want_ok(b.write_all_volatile_to(*a, &mut dst, 0), |_| true);
+                if dst.len() != room || data.iter().any(|x| *x != 7) {
+                    return Err("the sink changed".into());
+                }
+                r1.and(r2)
+            });
+            k.form(layer, "read_volatile_from / read_exact_volatile_from(count 0, &[u8] with data)", class, args.clone(), snapshot, &mut || {
+                let data = vec![7u8; dlen + 3];
+                let mut src: &[u8] = &data[..];
+                let r1 = want_ok(b.read_volatile_from(*a, &mut src, 0), |n| *n == 0);
+                let r2 = want_ok(b.read_exact_volatile_from(*a, &mut src, 0), |_| true);
+                if src.len() != dlen + 3 {
+                    return Err(format!("the source moved: {} of {} bytes left", src.len(), dlen + 3));
+                }
+                r1.and(r2)
+            });
             k.form(layer, "write_all_volatile_to(count 0, Vec with contents and spare capacity)", class, args.clone(), snapshot, &mut || {
                 let mut sink: Vec<u8> = Vec::with_capacity(dlen + 3);
                 sink.extend(std::iter::repeat(7u8).take(dlen));
